@@ -1,16 +1,23 @@
 """C03 — the daemon's fine-grained update equals a full check after every edit.
 
-S2: every edit history up to the depth bound over each universe's edit alphabet, each replayed from a
-fresh process on the real `mypy.dmypy_server.Server` (check / cmd_recheck), with a check after
-every step; the response of the last step of every history is compared with a non-incremental
-`mypy.build.build` of the files at that moment (every proper prefix is itself an enumerated
-history, so every step of every history is compared exactly once).  Modes: follow_imports=error
-with all files passed (the suite's default), follow_imports=normal with only the root passed,
-and T: start from a fine-grained cache written by a batch build of the previous state.
+S2: the whole tree of edit histories up to a depth bound, on the real `mypy.dmypy_server.Server`
+(check / cmd_recheck), explored by fork-cloning the live daemon at every node (each node runs
+exactly once; the parent's memory is untouched by its children and it restores the one file a
+child changed, content and mtime).  Every *checked* node's response is compared with a
+non-incremental `mypy.build.build` of that node's files.
+
+Alphabet per step: set one file to one variant (incl. delete / create), either followed by a check or
+NOT (so that the next check sees several files changed at once).  Histories start from EVERY
+file state at distance <= 1 from the universe's default state (the daemon's initial check fixes its
+dependency map, so the initial state matters — "start from non-initial states too").
+Modes: follow_imports=error with all files passed (the suite's default), follow_imports=normal
+with only the root passed, and start from a fine-grained cache written by a batch build.
 """
 
 from __future__ import annotations
 
+import itertools
+import json
 import os
 import shutil
 from collections import Counter
@@ -19,12 +26,44 @@ from typing import Any
 from mc import drivers, universes
 from mc.common import Ctx, Result, Violation, same_diagnostics, scratch, seeded_order
 from mc.drivers import BASE_TIME
-from mc.kernel import ExecError, chunked, pmap, run_isolated
+from mc.kernel import ExecError, pmap, run_isolated
 
 PROPERTY = "C03"
 LEVEL = "model_checking"
 
 MODES = ["error-all", "normal-root", "cache-start"]
+
+# ---------------------------------------------------------------------------------------------
+# daemon-specific universes (besides mc.universes)
+
+U2D = universes.Universe(  # U2 + a second user of c.C.attr, so triggers already have a dependent
+    name="U2D-indirect2",
+    files={
+        "tmp/a.py": ["import b, u\nx: int = b.f().attr\n"],
+        "tmp/b.py": [
+            "import c\nclass L:\n    attr: int = 0\ndef f() -> L:\n    return L()\n",
+            "import c\nclass L:\n    attr: int = 0\ndef f() -> c.C:\n    return c.C()\n",
+        ],
+        "tmp/c.py": ["class C:\n    attr: int = 0\n", "class C:\n    attr: str = ''\n"],
+        "tmp/u.py": ["import c\ndef g() -> int:\n    return c.C().attr\n"],
+    },
+    sources=[[("tmp/a.py", "a")]],
+)
+UCH = universes.Universe(  # chain reached only through imports: several files edited between two checks
+    name="UCH-chain",
+    files={
+        "tmp/r.py": ["import a\nx: int = a.fa()\n"],
+        "tmp/a.py": ["import b\ndef fa() -> int:\n    return b.fb()\n", "import b\ndef fa() -> int:\n    return b.fb() + 0\n"],
+        "tmp/b.py": ["import c\ndef fb() -> int:\n    return c.fc()\n", "import c\ndef fb() -> int:\n    return c.fc() + 0\n"],
+        "tmp/c.py": ["def fc() -> int:\n    return 1\n", "def fc() -> str:\n    return ''\n"],
+    },
+    sources=[[("tmp/r.py", "r")]],
+)
+LOCAL = {"U2D": U2D, "UCH": UCH}
+
+
+def U(name: str):
+    return LOCAL.get(name) or universes.ALL[name]
 
 
 def _paths(u) -> list[str]:
@@ -35,65 +74,50 @@ def _strip(p: str) -> str:
     return p[len("tmp/"):]
 
 
+def initial_vm(u, init: tuple) -> dict[str, int]:
+    vm = {p: 0 for p in _paths(u)}
+    vm.update(dict(init))
+    return vm
+
+
 def alphabet(u) -> list[tuple[str, int]]:
-    """Edits: set file p to variant v (for every variant incl. absent)."""
-    out = []
-    for p in _paths(u):
-        for v in range(len(u.files[p])):
-            out.append((p, v))
+    return [(p, v) for p in _paths(u) for v in range(len(u.files[p]))]
+
+
+def legal_step(u, vm: dict[str, int], p: str, v: int) -> bool:
+    if vm[p] == v:
+        return False
+    roots = {q for q, _m in u.sources[0]}
+    return not (p in roots and u.files[p][v] is None)
+
+
+def states_after(u, init: tuple, hist: tuple) -> list[dict[str, int]]:
+    cur = initial_vm(u, init)
+    out = [dict(cur)]
+    for p, v, _c in hist:
+        cur = dict(cur)
+        cur[p] = v
+        out.append(cur)
     return out
 
 
-def apply_history(u, hist: tuple) -> list[dict[str, int]]:
-    """Returns the list of variant maps after each step (index 0 = initial); steps that do not change
-    anything are not legal (filtered by the enumerator)."""
-    cur = {p: 0 for p in _paths(u)}
-    states = [dict(cur)]
-    for p, v in hist:
-        cur = dict(cur)
-        cur[p] = v
-        states.append(cur)
-    return states
-
-
-def legal(u, hist: tuple) -> bool:
-    cur = {p: 0 for p in _paths(u)}
-    roots = {p for p, _m in u.sources[0]}
-    for p, v in hist:
-        if cur[p] == v:
-            return False
-        if p in roots and u.files[p][v] is None:
-            return False
-        cur[p] = v
-    return True
-
-
-def write_state(root: str, u, vm: dict[str, int], step: int, prev: dict[str, int] | None) -> None:
-    """Monotone clock: a file written at step s gets mtime BASE+10*s; untouched files keep theirs."""
-    for p, v in vm.items():
-        rel = _strip(p)
-        dst = os.path.join(root, rel)
-        text = u.files[p][v]
-        if prev is not None and prev[p] == v:
-            continue
-        if text is None:
-            if os.path.exists(dst):
-                os.remove(dst)
-            continue
-        os.makedirs(os.path.dirname(dst) or root, exist_ok=True)
-        with open(dst, "w") as f:
-            f.write(text)
-        mt = BASE_TIME + 10 * step
-        os.utime(dst, (mt, mt))
-    # remove empty package dirs? no: an empty directory is a legitimate state (namespace package)
+def init_states(u, radius: int) -> list[tuple]:
+    """Initial file states at distance <= radius from the default state (as override tuples)."""
+    outs: list[tuple] = [()]
+    if radius >= 1:
+        vm0 = initial_vm(u, ())
+        for p, v in alphabet(u):
+            if legal_step(u, vm0, p, v):
+                outs.append(((p, v),))
+    return outs
 
 
 def sources_for(u, vm: dict[str, int], mode: str) -> list[tuple[str, str]]:
-    if mode == "normal-root" :
+    if mode == "normal-root":
         return [(_strip(p), m) for p, m in u.sources[0]]
     out = []
     for p in _paths(u):
-        if u.files[p][vm[p]] is not None and not p.endswith("builtins.pyi"):
+        if u.files[p][vm[p]] is not None:
             m = _strip(p).rsplit(".", 1)[0].replace("/", ".")
             if m.endswith(".__init__"):
                 m = m[: -len(".__init__")]
@@ -106,7 +130,7 @@ def sources_for(u, vm: dict[str, int], mode: str) -> list[tuple[str, str]]:
     return sorted((path, m) for m, path in mods.items())
 
 
-def base_options(u, mode: str, cache_dir: str | None = None):
+def base_options(u, mode: str):
     from mypy.options import Options
 
     o = Options()
@@ -123,111 +147,6 @@ def base_options(u, mode: str, cache_dir: str | None = None):
     return o
 
 
-def cold_run(args: tuple) -> dict:
-    root, uname, vm, mode = args
-    from mypy import build as mb
-    from mypy.errors import CompileError
-    from mypy.modulefinder import BuildSource
-
-    u = universes.ALL[uname]
-    os.chdir(root)
-    o = base_options(u, mode)
-    o.incremental = False
-    o.cache_dir = os.devnull
-    o.fine_grained_incremental = False
-    srcs = [BuildSource(p, m, None) for p, m in sources_for(u, vm, mode)]
-    try:
-        res = mb.build(srcs, o)
-        return {"out": list(res.errors), "blocker": False}
-    except CompileError as e:
-        return {"out": list(e.messages), "blocker": True}
-
-
-def cold_run_sources(args: tuple) -> dict:
-    root, uname, srcs_ = args
-    from mypy import build as mb
-    from mypy.errors import CompileError
-    from mypy.modulefinder import BuildSource
-
-    u = universes.ALL[uname]
-    os.chdir(root)
-    o = base_options(u, "error-all")
-    o.incremental = False
-    o.cache_dir = os.devnull
-    try:
-        res = mb.build([BuildSource(p, m, None) for p, m in srcs_], o)
-        return {"out": list(res.errors), "blocker": False}
-    except CompileError as e:
-        return {"out": list(e.messages), "blocker": True}
-
-
-def daemon_history(args: tuple) -> dict:
-    """Run one history on a fresh Server; returns the response after every step."""
-    root, uname, hist, mode, use_recheck = args
-    from mypy.dmypy_server import Server
-    from mypy.modulefinder import BuildSource
-
-    u = universes.ALL[uname]
-    states = apply_history(u, hist)
-    shutil.rmtree(root, ignore_errors=True)
-    os.makedirs(root)
-    os.chdir(root)
-    write_state(root, u, states[0], 0, None)
-    if u.fixture:
-        shutil.copyfile(os.path.join(drivers.FIXTURES, u.fixture), os.path.join(root, "builtins.pyi"))
-        os.utime(os.path.join(root, "builtins.pyi"), (BASE_TIME, BASE_TIME))
-    o = base_options(u, mode)
-    first_step = 0
-    if mode == "cache-start":
-        # batch build of the initial state writes a fine-grained cache; the daemon starts from it
-        from mypy import build as mb
-        from mypy.errors import CompileError
-
-        bo = base_options(u, mode)
-        bo.incremental = True
-        bo.cache_fine_grained = True
-        bo.cache_dir = os.path.join(root, ".cache")
-        try:
-            r0 = mb.build([BuildSource(p, m, None) for p, m in sources_for(u, states[0], mode)], bo)
-            r0.manager.metastore.close()
-        except CompileError:
-            pass
-        o.use_fine_grained_cache = True
-        o.cache_fine_grained = True
-        o.cache_dir = os.path.join(root, ".cache")
-        # the first daemon check already sees the first edit (load from cache + catch-up update)
-        if len(states) > 1:
-            write_state(root, u, states[1], 1, states[0])
-            first_step = 1
-    server = Server(o, os.path.join(root, ".status"))
-    resps = []
-    info = []
-    for i in range(first_step, len(states)):
-        if i > first_step:
-            write_state(root, u, states[i], i, states[i - 1])
-        srcs = [BuildSource(p, m, None) for p, m in sources_for(u, states[i], mode)]
-        if use_recheck and i > first_step and mode != "normal-root":
-            prev = {p for p, _ in sources_for(u, states[i - 1], mode)}
-            cur = {p for p, _ in sources_for(u, states[i], mode)}
-            ch_p, ch_v = hist[i - 1]
-            upd = sorted((cur - prev) | ({_strip(ch_p)} & cur))
-            rem = sorted(prev - cur)
-            r = server.cmd_recheck(False, -1, False, remove=rem or None, update=upd or None)
-        else:
-            r = server.check(srcs, False, False, -1)
-        out = (r.get("out") or "") + (r.get("err") or "")
-        resps.append({"out": out.splitlines(), "status": r.get("status"), "error": r.get("error")})
-        fgm = server.fine_grained_manager
-        if fgm is not None:
-            info.append({"updated": len(getattr(fgm, "updated_modules", []) or []),
-                         "targets": len(getattr(fgm, "processed_targets", []) or []),
-                         "triggered": len(getattr(fgm, "triggered", []) or [])})
-        else:
-            info.append({})
-    return {"resps": resps, "info": info, "first_step": first_step}
-
-
-
 def _set_file(root: str, u, p: str, v: int, mt: int) -> None:
     dst = os.path.join(root, _strip(p))
     text = u.files[p][v]
@@ -241,158 +160,46 @@ def _set_file(root: str, u, p: str, v: int, mt: int) -> None:
     os.utime(dst, (mt, mt))
 
 
-def daemon_tree(args: tuple) -> list[dict]:
-    """Explore the whole history subtree below `prefix` on ONE real Server, cloning the in-memory
-    daemon state with fork() at every node (each node is executed exactly once; the parent's memory
-    is untouched by its children and it restores the one file a child changed, content and mtime).
-    Returns one record per node: {hist, resp, info} or {hist, crash}."""
-    import json
+def _fixture(root: str, u) -> None:
+    if u.fixture:
+        dst = os.path.join(root, "builtins.pyi")
+        if not os.path.exists(dst):
+            shutil.copyfile(os.path.join(drivers.FIXTURES, u.fixture), dst)
+            os.utime(dst, (BASE_TIME, BASE_TIME))
 
-    root, uname, mode, use_recheck, prefix, depth = args
-    from mypy.dmypy_server import Server
+
+# ---------------------------------------------------------------------------------------------
+# cold oracle
+
+
+def cold_run(args: tuple) -> dict:
+    root, uname, vm, mode, srcs_ = args
+    from mypy import build as mb
+    from mypy.errors import CompileError
     from mypy.modulefinder import BuildSource
 
-    u = universes.ALL[uname]
-    al = alphabet(u)
-    shutil.rmtree(root, ignore_errors=True)
-    os.makedirs(root)
+    u = U(uname)
+    os.makedirs(root, exist_ok=True)
+    for p, v in vm.items():
+        _set_file(root, u, p, v, BASE_TIME)
+    _fixture(root, u)
     os.chdir(root)
-    resfile = os.path.join(os.path.dirname(root), f"results-{os.getpid()}.jsonl")
-    rfd = os.open(resfile, os.O_WRONLY | os.O_CREAT | os.O_APPEND | os.O_TRUNC, 0o644)
-    vm = {p: 0 for p in _paths(u)}
-    mts = {p: BASE_TIME for p in _paths(u)}
-    for p in vm:
-        _set_file(root, u, p, 0, BASE_TIME)
-    if u.fixture:
-        shutil.copyfile(os.path.join(drivers.FIXTURES, u.fixture), os.path.join(root, "builtins.pyi"))
-        os.utime(os.path.join(root, "builtins.pyi"), (BASE_TIME, BASE_TIME))
     o = base_options(u, mode)
-    prefix = tuple(tuple(e) for e in prefix)
-    done = 0
-    if mode == "cache-start":
-        from mypy import build as mb
-        from mypy.errors import CompileError
-
-        bo = base_options(u, mode)
-        bo.incremental = True
-        bo.cache_fine_grained = True
-        bo.cache_dir = os.path.join(root, ".cache")
-        try:
-            r0 = mb.build([BuildSource(p, m, None) for p, m in sources_for(u, vm, mode)], bo)
-            r0.manager.metastore.close()
-        except CompileError:
-            pass
-        o.use_fine_grained_cache = True
-        o.cache_fine_grained = True
-        o.cache_dir = os.path.join(root, ".cache")
-        assert prefix, "cache-start needs a first edit"
-        p0, v0 = prefix[0]
-        vm[p0] = v0
-        mts[p0] = BASE_TIME + 10
-        _set_file(root, u, p0, v0, mts[p0])
-        done = 1
-    server = Server(o, os.path.join(root, ".status"))
-
-    def emit(rec: dict) -> None:
-        os.write(rfd, (json.dumps(rec) + "\n").encode())
-
-    def check(hist: tuple, prev_vm: dict | None) -> bool:
-        """One real daemon request for the current files; returns False if the daemon crashed."""
-        srcs = [BuildSource(p, m, None) for p, m in sources_for(u, vm, mode)]
-        try:
-            if use_recheck and prev_vm is not None and server.fine_grained_manager and mode != "normal-root":
-                prev = {p for p, _ in sources_for(u, prev_vm, mode)}
-                cur = {p for p, _ in sources_for(u, vm, mode)}
-                ch_p = hist[-1][0]
-                upd = sorted((cur - prev) | ({_strip(ch_p)} & cur))
-                rem = sorted(prev - cur)
-                r = server.cmd_recheck(False, -1, False, remove=rem or None, update=upd or None)
-            else:
-                r = server.check(srcs, False, False, -1)
-        except BaseException as e:  # noqa: BLE001
-            import traceback
-
-            emit({"hist": [list(h) for h in hist], "crash": f"{type(e).__name__}: {e}\n{traceback.format_exc()}"})
-            return False
-        out = (r.get("out") or "") + (r.get("err") or "")
-        fgm = server.fine_grained_manager
-        info = {}
-        if fgm is not None:
-            info = {"updated": len(getattr(fgm, "updated_modules", []) or []),
-                    "targets": len(getattr(fgm, "processed_targets", []) or []),
-                    "triggered": len(getattr(fgm, "triggered", []) or [])}
-        emit({"hist": [list(h) for h in hist], "vm": sorted(vm.items()),
-              "resp": {"out": out.splitlines(), "status": r.get("status"), "error": r.get("error")}, "info": info})
-        return True
-
-    # walk the prefix (recording only its last node: shorter prefixes belong to other items)
-    # the daemon's first check always happens on the initial files (cache-start: after the first edit)
-    ok = check(prefix[:done], None)
-    for i in range(done, len(prefix)):
-        prev_vm = dict(vm)
-        p, v = prefix[i]
-        vm[p] = v
-        mts[p] = BASE_TIME + 10 * (i + 1)
-        _set_file(root, u, p, v, mts[p])
-        if not ok:
-            break
-        if i == len(prefix) - 1:
-            ok = check(prefix[: i + 1], prev_vm)
-        else:
-            ok = _silent(check, prefix[: i + 1], prev_vm)
-
-    def explore(hist: tuple, left: int) -> None:
-        if left <= 0:
-            return
-        for e in al:
-            h2 = hist + (e,)
-            if not legal(u, h2):
-                continue
-            p, v = e
-            pid = os.fork()
-            if pid == 0:
-                code = 0
-                try:
-                    prev_vm = dict(vm)
-                    vm[p] = v
-                    mts[p] = BASE_TIME + 10 * len(h2)
-                    _set_file(root, u, p, v, mts[p])
-                    if check(h2, prev_vm):
-                        explore(h2, left - 1)
-                except BaseException:  # noqa: BLE001
-                    code = 3
-                finally:
-                    os._exit(code)
-            os.waitpid(pid, 0)
-            _set_file(root, u, p, vm[p], mts[p])  # restore the one file the child's subtree changed
-
-    if ok:
-        explore(prefix, depth - len(prefix))
-    os.close(rfd)
-    with open(resfile) as f:
-        recs = [json.loads(line) for line in f if line.strip()]
-    os.remove(resfile)
-    return recs
-
-
-def _silent(check, hist, prev_vm=None) -> bool:
-    """Run a prefix step whose comparison belongs to another item (still must not crash)."""
-    import io
-
-    return check.__call__(hist, prev_vm) if False else _check_noemit(check, hist, prev_vm)
-
-
-def _check_noemit(check, hist, prev_vm) -> bool:
-    # the record is emitted anyway; the caller de-duplicates by history (cheap and keeps one code path)
-    return check(hist, prev_vm)
+    o.incremental = False
+    o.cache_dir = os.devnull
+    o.fine_grained_incremental = False
+    srcs = [BuildSource(p, m, None) for p, m in (srcs_ or sources_for(u, vm, mode))]
+    try:
+        res = mb.build(srcs, o)
+        return {"out": list(res.errors), "blocker": False}
+    except CompileError as e:
+        return {"out": list(e.messages), "blocker": True}
 
 
 COLD_TABLE: dict[tuple, dict] = {}  # (uname, mode, sorted vm items) -> cold result; filled by run() before forking
 
 
 def all_states(u) -> list[dict[str, int]]:
-    import itertools
-
     paths = _paths(u)
     roots = {p for p, _m in u.sources[0]}
     out = []
@@ -408,92 +215,280 @@ def _cold_item(args: tuple) -> dict:
     uname, mode, vm_items = args
     root = scratch("c03", f"cold{os.getpid()}", "tmp")
     shutil.rmtree(root, ignore_errors=True)
-    return _cold_with_files((root, uname, dict(vm_items), mode))
+    return cold_run((root, uname, dict(vm_items), mode, None))
 
 
-def history_signature(u, uname: str, hist: tuple, fallback: str) -> str:
+# ---------------------------------------------------------------------------------------------
+# the daemon, explored as a tree
+
+
+class Daemon:
+    """One real Server plus the harness' view of the files it watches."""
+
+    def __init__(self, root: str, uname: str, mode: str, use_recheck: bool, init: tuple, emit) -> None:
+        from mypy.dmypy_server import Server
+        from mypy.modulefinder import BuildSource
+
+        self.BuildSource = BuildSource
+        self.root, self.u, self.mode, self.use_recheck, self.emit = root, U(uname), mode, use_recheck, emit
+        u = self.u
+        shutil.rmtree(root, ignore_errors=True)
+        os.makedirs(root)
+        os.chdir(root)
+        self.vm = initial_vm(u, init)
+        self.mts = {p: BASE_TIME for p in self.vm}
+        for p, v in self.vm.items():
+            _set_file(root, u, p, v, BASE_TIME)
+        _fixture(root, u)
+        self.checked_vm: dict[str, int] | None = None  # files as of the last check
+        self.pending: list[str] = []  # files changed since the last check
+        o = base_options(u, mode)
+        self.cache_start = mode == "cache-start"
+        if self.cache_start:
+            from mypy import build as mb
+            from mypy.errors import CompileError
+
+            bo = base_options(u, mode)
+            bo.incremental = True
+            bo.cache_fine_grained = True
+            bo.cache_dir = os.path.join(root, ".cache")
+            try:
+                r0 = mb.build([BuildSource(p, m, None) for p, m in sources_for(u, self.vm, mode)], bo)
+                r0.manager.metastore.close()
+            except CompileError:
+                pass
+            o.use_fine_grained_cache = True
+            o.cache_fine_grained = True
+            o.cache_dir = os.path.join(root, ".cache")
+            self.checked_vm = dict(self.vm)  # the batch build plays the role of the first check
+        self.server = Server(o, os.path.join(root, ".status"))
+
+    def edit(self, p: str, v: int, step: int) -> tuple[int, int]:
+        old = (self.vm[p], self.mts[p])
+        self.vm[p] = v
+        self.mts[p] = BASE_TIME + 10 * step
+        _set_file(self.root, self.u, p, v, self.mts[p])
+        self.pending.append(p)
+        return old
+
+    def restore(self, p: str, old: tuple[int, int], pending_len: int) -> None:
+        self.vm[p], self.mts[p] = old
+        _set_file(self.root, self.u, p, old[0], old[1])
+        del self.pending[pending_len:]
+
+    def check(self, hist: tuple, record: bool = True) -> bool:
+        """One real daemon request for the current files; False if the daemon raised."""
+        u, server = self.u, self.server
+        srcs = [self.BuildSource(p, m, None) for p, m in sources_for(u, self.vm, self.mode)]
+        try:
+            if (self.use_recheck and self.checked_vm is not None and server.fine_grained_manager
+                    and self.mode != "normal-root"):
+                prev = {p for p, _ in sources_for(u, self.checked_vm, self.mode)}
+                cur = {p for p, _ in sources_for(u, self.vm, self.mode)}
+                upd = sorted((cur - prev) | ({_strip(p) for p in self.pending} & cur))
+                rem = sorted(prev - cur)
+                r = server.cmd_recheck(False, -1, False, remove=rem or None, update=upd or None)
+            else:
+                r = server.check(srcs, False, False, -1)
+        except BaseException as e:  # noqa: BLE001
+            import traceback
+
+            if record:
+                self.emit({"hist": [list(h) for h in hist],
+                           "crash": f"{type(e).__name__}: {e}\n{traceback.format_exc()}"})
+            return False
+        self.checked_vm = dict(self.vm)
+        self.pending = []
+        if record:
+            out = (r.get("out") or "") + (r.get("err") or "")
+            fgm = server.fine_grained_manager
+            info = {}
+            if fgm is not None:
+                info = {"updated": len(getattr(fgm, "updated_modules", []) or []),
+                        "targets": len(getattr(fgm, "processed_targets", []) or []),
+                        "triggered": len(getattr(fgm, "triggered", []) or [])}
+            self.emit({"hist": [list(h) for h in hist], "vm": sorted(self.vm.items()),
+                       "resp": {"out": out.splitlines(), "status": r.get("status"), "error": r.get("error")},
+                       "info": info})
+        return True
+
+
+def daemon_tree(args: tuple) -> list[dict]:
+    """Explore the history subtree below `prefix` (see module docstring).  Returns one record per
+    CHECKED node at or below the prefix: {hist, vm, resp, info} or {hist, crash}."""
+    root, uname, mode, use_recheck, init, prefix, depth, nocheck = args
+    u = U(uname)
+    al = alphabet(u)
+    resfile = os.path.join(os.path.dirname(root), f"results-{os.getpid()}.jsonl")
+    rfd = os.open(resfile, os.O_WRONLY | os.O_CREAT | os.O_APPEND | os.O_TRUNC, 0o644)
+
+    def emit(rec: dict) -> None:
+        os.write(rfd, (json.dumps(rec) + "\n").encode())
+
+    d = Daemon(root, uname, mode, use_recheck, tuple(init), emit)
+    prefix = tuple(tuple(e) for e in prefix)
+    ok = True
+    if not d.cache_start:
+        ok = d.check((), record=not prefix)  # the daemon's first check happens on the initial files
+    for i, (p, v, c) in enumerate(prefix):
+        if not ok:
+            break
+        d.edit(p, v, i + 1)
+        if c:
+            ok = d.check(prefix[: i + 1], record=(i == len(prefix) - 1))
+
+    def explore(hist: tuple, left: int) -> None:
+        if left <= 0:
+            return
+        for p, v in al:
+            if not legal_step(u, d.vm, p, v):
+                continue
+            for c in ((1, 0) if nocheck else (1,)):
+                if c == 0 and left == 1:
+                    continue  # a history must end with a check
+                h2 = hist + ((p, v, c),)
+                pid = os.fork()
+                if pid == 0:
+                    code = 0
+                    try:
+                        d.edit(p, v, len(h2))
+                        if c == 0 or d.check(h2):
+                            explore(h2, left - 1)
+                    except BaseException:  # noqa: BLE001
+                        code = 3
+                    finally:
+                        os._exit(code)
+                _, status = os.waitpid(pid, 0)
+                if status != 0:
+                    emit({"hist": [list(h) for h in h2], "crash": f"explorer child exited with status {status}"})
+                # restore the one file the child's subtree changed (content and mtime)
+                _set_file(root, u, p, d.vm[p], d.mts[p])
+
+    if ok and (not prefix or prefix[-1][2] == 1 or depth > len(prefix)):
+        explore(prefix, depth - len(prefix))
+    os.close(rfd)
+    with open(resfile) as f:
+        recs = [json.loads(line) for line in f if line.strip()]
+    os.remove(resfile)
+    return recs
+
+
+def daemon_chain(args: tuple) -> list[dict]:
+    """Straight-line replay of ONE history on a fresh daemon (self-test / replay)."""
+    root, uname, mode, use_recheck, init, hist = args
+    recs: list[dict] = []
+    d = Daemon(root, uname, mode, use_recheck, tuple(init), recs.append)
+    ok = True
+    if not d.cache_start:
+        ok = d.check(())
+    for i, (p, v, c) in enumerate(hist):
+        if not ok:
+            break
+        d.edit(p, v, i + 1)
+        if c:
+            ok = d.check(tuple(hist[: i + 1]))
+    return recs
+
+
+# ---------------------------------------------------------------------------------------------
+# comparison
+
+
+def fmt_hist(init: tuple, hist: tuple) -> list[str]:
+    out = [f"init:{_strip(p)}={v}" for p, v in init]
+    return out + [f"{_strip(p)}={v}" + ("" if c else "(no check)") for p, v, c in hist]
+
+
+def history_signature(u, uname: str, init: tuple, hist: tuple, fallback: str) -> str:
     """Cause-level grouping: a history in which some file appears or disappears is attributed to
     that presence change (which module file came/went), otherwise to the message difference."""
-    cur = {p: 0 for p in _paths(u)}
+    if fallback.split("|", 1)[1] == '-error: Unused "type: ignore" comment  [unused-ignore]':
+        return fallback  # one recognisable cause whatever the edit that triggered the re-check
+    cur = initial_vm(u, init)
     changed = set()
-    for p, v in hist:
+    for p, v, _c in hist:
         if (u.files[p][cur[p]] is None) != (u.files[p][v] is None):
             changed.add(_strip(p))
         cur[p] = v
-    if fallback.split("|", 1)[1] == '-error: Unused "type: ignore" comment  [unused-ignore]':
-        return fallback  # one recognisable cause whatever the edit that triggered the re-check
     if changed:
         return f"{uname}|file-appears-or-disappears:{'+'.join(sorted(changed))}"
     return fallback
 
 
+def _crash_sig(info: str) -> str:
+    lines = [l for l in info.strip().splitlines() if l.strip()]
+    exc = lines[0][:80] if lines else "?"
+    loc = ""
+    for l in reversed(lines):
+        s = l.strip()
+        if s.startswith('File "') and "/mypy/" in s:
+            loc = "mypy/" + s.split("/mypy/", 1)[1].split('"')[0] + ":" + s.split(" in ")[-1]
+            break
+    return f"{exc.split(':')[0]}@{loc}"
+
+
 def run_subtree(item: tuple) -> dict:
-    """item = (uname, mode, use_recheck, prefix, depth).  Executes the subtree on the real daemon, then
-    compares every node's response with a non-incremental build of that node's files."""
-    uname, mode, use_recheck, prefix, depth = item
-    u = universes.ALL[uname]
+    """item = (uname, mode, use_recheck, init, prefix, depth, nocheck)."""
+    uname, mode, use_recheck, init, prefix, depth, nocheck = item
+    u = U(uname)
     out = {"n": 0, "nontrivial": 0, "violations": [], "samples": [], "herr": [], "outcomes": set(), "order_only": 0,
-           "steps": 0, "multi_blocker_accepted": 0}
+           "steps": 0, "multi_blocker_accepted": 0, "multi_file_checks": 0}
     root = scratch("c03", f"w{os.getpid()}", "tmp")
     try:
-        recs = run_isolated(daemon_tree, (root, uname, mode, use_recheck, prefix, depth), timeout=1800)
+        recs = run_isolated(daemon_tree, (root, uname, mode, use_recheck, init, prefix, depth, nocheck), timeout=3000)
     except ExecError as e:
         out["herr"].append(f"subtree {item} failed: {e.kind} {e.info[-400:]}")
         return _fin(out)
     cold_memo: dict[tuple, dict] = {}
     seen_h = set()
+    omode = "normal-root" if mode == "normal-root" else "error-all"
     for rec in recs:
-        hist = tuple((p, v) for p, v in rec["hist"])
+        hist = tuple((p, v, c) for p, v, c in rec["hist"])
         if hist in seen_h or len(hist) < len(prefix):
             continue
         seen_h.add(hist)
         out["steps"] += 1
+        detail_base = {"universe": uname, "init": [list(x) for x in init], "history": [list(h) for h in hist],
+                       "mode": mode, "recheck": use_recheck}
         if "crash" in rec:
             out["n"] += 1
             info = rec["crash"]
-            last = info.strip().splitlines()[0][:160]
             out["violations"].append({
                 "signature": f"{uname}|daemon-crash:{_crash_sig(info)}",
-                "what": f"{uname} {mode} history {[f'{p}={v}' for p, v in hist]}: daemon raised: {last}",
-                "detail": {"universe": uname, "history": [list(h) for h in hist], "mode": mode,
-                           "recheck": use_recheck, "error": info[-3000:]}})
+                "what": f"{uname} {mode} history {fmt_hist(init, hist)}: daemon raised: {info.strip().splitlines()[0][:160]}",
+                "detail": dict(detail_base, error=info[-3000:])})
             continue
         final = dict((p, v) for p, v in rec["vm"])
-        key = (tuple(sorted(final.items())), mode)
-        pre = COLD_TABLE.get((uname, "normal-root" if mode == "normal-root" else "error-all", key[0]))
-        if pre is not None:
-            cold_memo[key] = pre
-        if key not in cold_memo:
+        fkey = tuple(sorted(final.items()))
+        cold = COLD_TABLE.get((uname, omode, fkey)) or cold_memo.get(fkey)
+        if cold is None:
             try:
-                cold_memo[key] = run_isolated(_cold_with_files, (root, uname, final, mode), timeout=300)
+                cold = cold_memo[fkey] = run_isolated(cold_run, (root, uname, final, mode, None), timeout=300)
             except ExecError as e:
                 out["herr"].append(f"cold failed {uname} {hist} {mode}: {e.kind} {e.info[-300:]}")
                 continue
-        cold = cold_memo[key]
         got = rec["resp"]
         out["n"] += 1
         if got.get("error"):
             out["herr"].append(f"daemon error response {uname} {hist}: {got['error']}")
             continue
+        if sum(1 for i, h in enumerate(hist) if h[2] == 0) and hist[-1][2] == 1:
+            out["multi_file_checks"] += 1
         exp_status = 0
         if cold["out"]:
             exp_status = 2 if cold["blocker"] else (1 if any(": error:" in l for l in cold["out"]) else 0)
         eq, oo = same_diagnostics(got["out"], cold["out"])
         if not eq and cold["blocker"] and got["status"] == 2 and got["out"]:
-            # Several files have a blocking error at once: WHICH one a fresh run reports depends on the
-            # order it meets the files in, which the property does not fix.  Accept the daemon's answer iff
-            # every line is a blocker line some fresh run reports (all orders of all present files).
-            akey = (tuple(sorted(final.items())), "blocker-lines")
+            # Several files carry a blocking error at once: WHICH one a fresh run reports depends on the order it
+            # meets the files in, which the property does not fix.  Accept the daemon's answer iff every line is a
+            # blocker line some fresh run reports (all orders of all present files).
+            akey = ("blocker-lines", fkey)
             if akey not in cold_memo:
-                import itertools
-
-                for p, v in final.items():
-                    _set_file(root, u, p, v, BASE_TIME)
                 allsrc = sources_for(u, final, "error-all")
                 lines: set[str] = set()
                 for perm in itertools.permutations(allsrc):
                     try:
-                        r = run_isolated(cold_run_sources, (root, uname, list(perm)), timeout=300)
+                        r = run_isolated(cold_run, (root, uname, final, "error-all", list(perm)), timeout=300)
                     except ExecError:
                         continue
                     if r["blocker"]:
@@ -507,11 +502,10 @@ def run_subtree(item: tuple) -> dict:
         out["outcomes"].add(tuple(cold["out"]))
         inf = rec.get("info") or {}
         n_mod = sum(1 for p in final if u.files[p][final[p]] is not None)
-        nontriv = bool(hist) and inf.get("updated", 99) < n_mod + 3 and inf.get("targets", 0) > 0
-        if nontriv:
+        if bool(hist) and inf.get("updated", 99) < n_mod + 3 and inf.get("targets", 0) > 0:
             out["nontrivial"] += 1
         if len(out["samples"]) < 2 and len(hist) >= 2 and cold["out"]:
-            out["samples"].append({"universe": uname, "mode": mode, "history": [f"{p}={v}" for p, v in hist],
+            out["samples"].append({"universe": uname, "mode": mode, "history": fmt_hist(init, hist),
                                    "response": got["out"][:3], "info": inf})
         if not eq or (got["status"] != exp_status):
             cg, cc = Counter(got["out"]), Counter(cold["out"])
@@ -532,13 +526,12 @@ def run_subtree(item: tuple) -> dict:
                 sig = f"{uname}|status:{got['status']}!={exp_status}"
             elif not extra and not missing:
                 sig = f"{uname}|order-within-file"
-            sig = history_signature(u, uname, hist, sig)
+            sig = history_signature(u, uname, init, hist, sig)
             out["violations"].append({
                 "signature": sig,
-                "what": f"{uname} {mode}{' recheck' if use_recheck else ''} history {[f'{p}={v}' for p, v in hist]}: "
+                "what": f"{uname} {mode}{' recheck' if use_recheck else ''} history {fmt_hist(init, hist)}: "
                         f"daemon={got['out'][:3]} status={got['status']} full={cold['out'][:3]} status={exp_status}",
-                "detail": {"universe": uname, "history": [list(h) for h in hist], "mode": mode, "recheck": use_recheck,
-                           "daemon": got, "cold": cold}})
+                "detail": dict(detail_base, daemon=got, cold=cold)})
     return _fin(out)
 
 
@@ -547,95 +540,70 @@ def _fin(out: dict) -> dict:
     return out
 
 
-def _cold_with_files(args: tuple) -> dict:
-    root, uname, final, mode = args
-    u = universes.ALL[uname]
-    os.makedirs(root, exist_ok=True)
-    for p, v in final.items():
-        _set_file(root, u, p, v, BASE_TIME)
-    if u.fixture and not os.path.exists(os.path.join(root, "builtins.pyi")):
-        shutil.copyfile(os.path.join(drivers.FIXTURES, u.fixture), os.path.join(root, "builtins.pyi"))
-    return cold_run((root, uname, final, mode))
-
-
-def _crash_sig(info: str) -> str:
-    lines = [l for l in info.strip().splitlines() if l.strip()]
-    exc = lines[0][:80] if lines else "?"
-    loc = ""
-    for l in reversed(lines):
-        if l.strip().startswith('File "/repo/'):
-            loc = l.strip().split(",")[0].replace('File "/repo/', "").rstrip('"') + ":" + l.strip().split(" in ")[-1]
-            break
-    return f"{exc.split(':')[0]}@{loc}"
-
-
-def histories(u, depth: int) -> list[tuple]:
-    al = alphabet(u)
-    out: list[tuple] = [()]
-    frontier: list[tuple] = [()]
-    for _d in range(depth):
-        nxt = []
-        for h in frontier:
-            for e in al:
-                h2 = h + (e,)
-                if legal(u, h2):
-                    nxt.append(h2)
-        out.extend(nxt)
-        frontier = nxt
-    return out
-
-
-
-def selftest_tree_vs_chain(items: list[tuple]) -> None:
+def selftest_tree_vs_chain(items: list[tuple]) -> int:
     """Replay self-test: the fork-cloned tree must observe exactly what a straight-line replay of the
-    same history on a fresh daemon observes (else nondeterminism/harness state is not owned)."""
-    picked = [it for it in items if it[3] and it[1] != "cache-start" and not it[2]][:2]
-    for uname, mode, use_recheck, prefix, _d in picked:
+    same history on a fresh daemon observes (else nondeterminism / harness state is not owned)."""
+    picked = [it for it in items if it[4] and it[1] != "cache-start" and not it[2]][:2]
+    picked += [it for it in items if it[4] and it[6]][:1]
+    checked = 0
+    for uname, mode, use_recheck, init, prefix, _d, nocheck in picked:
         root = scratch("c03", "selftest", "tmp")
-        recs = run_isolated(daemon_tree, (root, uname, mode, use_recheck, prefix, len(prefix) + 1), timeout=600)
-        checked = 0
+        recs = run_isolated(daemon_tree, (root, uname, mode, use_recheck, init, prefix, len(prefix) + 1, nocheck),
+                            timeout=900)
+        n = 0
         for rec in recs:
-            hist = tuple((p, v) for p, v in rec["hist"])
+            hist = tuple((p, v, c) for p, v, c in rec["hist"])
             if len(hist) != len(prefix) + 1 or "resp" not in rec:
                 continue
-            d = run_isolated(daemon_history, (root, uname, hist, mode, use_recheck), timeout=600)
-            if d["resps"][-1]["out"] != rec["resp"]["out"] or d["resps"][-1]["status"] != rec["resp"]["status"]:
+            d = run_isolated(daemon_chain, (root, uname, mode, use_recheck, init, hist), timeout=900)
+            last = d[-1]
+            if "resp" not in last or last["resp"]["out"] != rec["resp"]["out"] or \
+                    last["resp"]["status"] != rec["resp"]["status"]:
                 raise RuntimeError(f"self-test failed: tree and chain replay differ for {uname} {mode} {hist}: "
-                                   f"{rec['resp']} vs {d['resps'][-1]}")
-            checked += 1
-            if checked >= 4:
+                                   f"{rec['resp']} vs {last}")
+            n += 1
+            if n >= 4:
                 break
-        if not checked:
-            raise RuntimeError("self-test vacuous")
-
-
-def first_edits(u) -> list[tuple]:
-    return [e for e in alphabet(u) if legal(u, (e,))]
+        checked += n
+    if not checked:
+        raise RuntimeError("self-test vacuous")
+    return checked
 
 
 def run(ctx: Ctx, only: list[str] | None = None) -> Result:
+    # (universe, depth, modes, init radius, allow unchecked edits)
     if ctx.quick:
-        plan = [("U1", 3, MODES[:2]), ("U2", 3, MODES[:2]), ("U3", 3, MODES[:2]), ("U4b", 3, MODES[:2]),
-                ("U5", 3, MODES[:2]), ("U6", 3, MODES[:2]), ("U8", 3, MODES[:2]), ("U9", 3, MODES[:2]),
-                ("U2", 2, MODES[2:]), ("U9", 2, MODES[2:]), ("U6", 2, MODES[2:])]
+        plan = [("U1", 2, MODES[:2], 1, False), ("U2", 2, MODES[:2], 1, False), ("U2D", 3, MODES[:2], 1, False),
+                ("U3", 2, MODES[:2], 1, False), ("U4b", 3, MODES[:2], 0, False), ("U5", 2, MODES[:2], 1, False),
+                ("U6", 3, MODES[:2], 0, False), ("U8", 2, MODES[:2], 1, False), ("U9", 2, MODES[:2], 1, False),
+                ("UCH", 3, MODES[:2], 0, True),
+                ("U2", 2, MODES[2:], 0, False), ("U9", 2, MODES[2:], 0, False), ("U6", 2, MODES[2:], 0, False)]
     else:
-        plan = [("U1", 4, MODES), ("U2", 5, MODES), ("U3", 5, MODES), ("U4", 4, MODES), ("U4b", 5, MODES),
-                ("U5", 4, MODES), ("U6", 5, MODES), ("U8", 4, MODES), ("U9", 4, MODES)]
+        plan = [("U1", 3, MODES, 1, False), ("U2", 4, MODES, 1, False), ("U2D", 4, MODES, 1, True),
+                ("U3", 4, MODES, 1, False), ("U4", 3, MODES, 1, False), ("U4b", 4, MODES, 1, True),
+                ("U5", 3, MODES, 1, True), ("U6", 4, MODES, 1, False), ("U8", 3, MODES, 1, False),
+                ("U9", 3, MODES, 1, False), ("UCH", 4, MODES, 1, True), ("U10", 3, MODES, 1, True)]
     if only:
         plan = [p for p in plan if p[0] in only]
     items: list[tuple] = []
-    bounds: dict[str, int] = {}
-    for uname, depth, modes in plan:
-        u = universes.ALL[uname]
+    bounds: dict[str, Any] = {}
+    for uname, depth, modes, radius, nocheck in plan:
+        u = U(uname)
         for mode in modes:
             variants = [False] + ([True] if mode == "error-all" else [])
             for use_recheck in variants:
                 d = depth if not use_recheck or ctx.thorough else min(depth, 2)
-                bounds[f"{uname}/{mode}{'+recheck' if use_recheck else ''}"] = d
-                if mode != "cache-start":
-                    items.append((uname, mode, use_recheck, (), 0))  # the root node alone
-                for e in first_edits(u):
-                    items.append((uname, mode, use_recheck, (e,), d))
+                bounds[f"{uname}/{mode}{'+recheck' if use_recheck else ''}"] = {
+                    "depth": d, "initial_states_radius": radius, "unchecked_edits": nocheck}
+                for init in init_states(u, radius):
+                    vm0 = initial_vm(u, init)
+                    if mode != "cache-start":
+                        items.append((uname, mode, use_recheck, init, (), 0, False))  # the root node alone
+                    for p, v in alphabet(u):
+                        if not legal_step(u, vm0, p, v):
+                            continue
+                        for c in ((1, 0) if nocheck and d >= 2 else (1,)):
+                            items.append((uname, mode, use_recheck, init, ((p, v, c),), d, nocheck))
     items = seeded_order(items, ctx.seed)
     tot: Counter = Counter()
     violations: list[Violation] = []
@@ -645,22 +613,22 @@ def run(ctx: Ctx, only: list[str] | None = None) -> Result:
     # cold oracle for every file state of every universe, computed once (memo shared by all subtrees)
     cold_jobs = []
     for uname in sorted({it[0] for it in items}):
-        for mode in ("error-all", "normal-root"):
-            if any(it[0] == uname and (it[1] == mode or (mode == "error-all" and it[1] == "cache-start")) for it in items):
-                for vm in all_states(universes.ALL[uname]):
-                    cold_jobs.append((uname, mode, tuple(sorted(vm.items()))))
+        for omode in ("error-all", "normal-root"):
+            if any(it[0] == uname and ((it[1] == "normal-root") == (omode == "normal-root")) for it in items):
+                for vm in all_states(U(uname)):
+                    cold_jobs.append((uname, omode, tuple(sorted(vm.items()))))
     for _i, job, st, val in pmap(_cold_item, cold_jobs, fresh=True, timeout=600):
         if st == "ok":
             COLD_TABLE[job] = val
         else:
             herr.append(f"cold oracle failed for {job}: {val}")
     tot["cold_oracle_runs"] = len(COLD_TABLE)
-    selftest_tree_vs_chain(items)
+    tot["selftest_nodes"] = selftest_tree_vs_chain(items)
     for _i, item, st, val in pmap(run_subtree, items, fresh=False, timeout=3600):
         if st != "ok":
             herr.append(f"item {item} failed: {val}")
             continue
-        for k in ("n", "nontrivial", "order_only", "steps", "multi_blocker_accepted"):
+        for k in ("n", "nontrivial", "order_only", "steps", "multi_blocker_accepted", "multi_file_checks"):
             tot[k] += val[k]
         per[f"{item[0]}/{item[1]}{'+recheck' if item[2] else ''}"] += val["n"]
         tot["outcomes"] = max(tot["outcomes"], val["outcomes"])
@@ -674,15 +642,17 @@ def run(ctx: Ctx, only: list[str] | None = None) -> Result:
     cov = {
         "states": tot["n"], "transitions": tot["steps"], "traces_validated_against_impl": tot["n"],
         "evaluations": tot["n"], "distinct_nontrivial": tot["nontrivial"],
-        "rule": "node = one edit history (single-file edits: set file to variant, incl. delete/create), each edit followed "
-                "by a real Server.check/cmd_recheck; every node's response is compared with a non-incremental build.build "
-                "of that node's files; non-trivial iff the update re-processed targets without re-processing every module",
-        "histories_per_universe_mode": dict(per), "depth_bound_per_universe_mode": bounds,
-        "cold_oracle_runs": tot["cold_oracle_runs"], "replay_selftest": "tree vs straight-line replay identical",
+        "rule": "node = (initial file state, edit history); every checked node is one real Server.check/cmd_recheck whose "
+                "response is compared with a non-incremental build.build of that node's files; non-trivial iff the update "
+                "re-processed targets without re-processing every module",
+        "checked_nodes_per_universe_mode": dict(per), "bounds_per_universe_mode": bounds,
+        "checks_seeing_several_changed_files": tot["multi_file_checks"],
+        "cold_oracle_runs": tot["cold_oracle_runs"],
+        "replay_selftest": f"{tot['selftest_nodes']} nodes: fork-cloned tree == straight-line replay on a fresh daemon",
         "order_only_differences": tot["order_only"], "multi_blocker_states_accepted": tot["multi_blocker_accepted"],
         "exhaustive": True, "samples": samples[:5],
-        "bounds": "ALL legal histories up to the depth bound per universe/mode (history tree explored by fork-cloning the "
-                  "live daemon at every node; no state merging)",
+        "bounds": "ALL legal histories up to the depth bound from EVERY initial file state within the stated radius, per "
+                  "universe/mode (history tree explored by fork-cloning the live daemon at every node; no state merging)",
     }
     return Result(PROPERTY, LEVEL, cov, violations, assumptions=[
         "fixture stubs on both sides; mtimes owned (monotone clock: +10 s per step)",
@@ -693,10 +663,12 @@ def run(ctx: Ctx, only: list[str] | None = None) -> Result:
 
 def replay(ctx: Ctx, rec: dict) -> Result:
     d = rec["detail"]
-    hist = tuple((p, v) for p, v in d["history"])
-    out = run_subtree((d["universe"], d["mode"], d.get("recheck", False), hist, len(hist)))
+    hist = tuple((h[0], h[1], h[2] if len(h) > 2 else 1) for h in d["history"])
+    init = tuple((p, v) for p, v in d.get("init", []))
+    nocheck = any(h[2] == 0 for h in hist)
+    out = run_subtree((d["universe"], d["mode"], d.get("recheck", False), init, hist, len(hist), nocheck))
     vs = [Violation(v["signature"], v["what"], {}) for v in out["violations"]
-          if [list(h) for h in hist] == v["detail"]["history"]]
+          if v["detail"]["history"] == [list(h) for h in hist]]
     for v in vs:
         print(v.what)
     return Result(PROPERTY, LEVEL, {}, vs)
